@@ -195,7 +195,7 @@ func snapMW(c *rux.Context) {
 }
 
 func runC10(e *Env) {
-	e.Rule = "request histories (10..60 requests) on one router built from a generated registration program with an always-first snapshot middleware (or, on routers without any global middleware, the first instrumented handler of the chain snapshots); requests mix static, dynamic, 404, 405 routes; per request a designated handler performs dirtying actions drawn from {Set many keys, AddError x2, replace c.Resp, replace c.Req, Abort, SetStatus, write, assign Params, edit the Params map in place, edit the parsed query values, render a template (successfully or failing half way), set a response header, retain a Copy() of the context and its Data() map for 'background work' that writes to them while later requests are being served}, or panics (with an OnPanic hook, or without one so that the panic escapes ServeHTTP and is recovered by the caller), or serves a nested request. Observed by the first handler of every request: parsed query values, Data keys, Params, Errors, IsAborted, StatusCode, Length, type of c.Resp, RawWriter is this request's writer, c.Req is this request, Handler() non-nil, *Context pointer. Oracle (twin): the snapshot and the outcome of the k-th request equal those of the same request sent as the FIRST request to a freshly built identical router. Pooled-context reuse is measured by pointer identity; zero reuse => inconclusive. Non-trivial: a request served by a reused context whose previous user dirtied it; distinct by (program, history prefix). Further actions: edit the allowed-methods list in place, re-dispatch through HandleContext, hand the request over to another router's HandleContext (the snapshot includes whether c.Router() is the serving router), hijack the connection; routes without variables but with an optional part; the snapshot also shows the allowed list and the nil-ness of Params and is checked for markers only an earlier handler can have written. The dirtying actions include JSON/JSONP responses of encodable and unencodable values (whatever a failed encoding left behind must not show in a later body)."
+	e.Rule = "request histories (10..60 requests) on one router built from a generated registration program with an always-first snapshot middleware (or, on routers without any global middleware, the first instrumented handler of the chain snapshots); requests mix static, dynamic, 404, 405 routes; per request a designated handler performs dirtying actions drawn from {Set many keys, AddError x2, replace c.Resp, replace c.Req, Abort, SetStatus, write, assign Params, edit the Params map in place, edit the parsed query values, render a template (successfully or failing half way), set a response header, retain a Copy() of the context and its Data() map for 'background work' that writes to them while later requests are being served}, or panics (with an OnPanic hook, or without one so that the panic escapes ServeHTTP and is recovered by the caller), or serves a nested request. Observed by the first handler of every request: parsed query values, Data keys, Params, Errors, IsAborted, StatusCode, Length, type of c.Resp, RawWriter is this request's writer, c.Req is this request, Handler() non-nil, *Context pointer. Oracle (twin): the snapshot and the outcome of the k-th request equal those of the same request sent as the FIRST request to a freshly built identical router. Pooled-context reuse is measured by pointer identity; zero reuse => inconclusive. Non-trivial: a request served by a reused context whose previous user dirtied it; distinct by (program, history prefix). Further actions: edit the allowed-methods list in place, re-dispatch through HandleContext, hand the request over to another router's HandleContext (the snapshot includes whether c.Router() is the serving router), hijack the connection; a quarter of the requests arrive with the very writer object of the previous request (a server layer that recycles its writers); routes without variables but with an optional part; the snapshot also shows the allowed list and the nil-ness of Params and is checked for markers only an earlier handler can have written. The dirtying actions include JSON/JSONP responses of encodable and unencodable values (whatever a failed encoding left behind must not show in a later body)."
 	e.Assumptions = []string{
 		"sequential histories: sync.Pool hands the same *Context back almost always (measured, not assumed)",
 		"a fresh identical router is the specification of 'pristine'",
@@ -254,6 +254,7 @@ func c10Case(t *T) {
 	}
 	t.AutoSample()
 	reqs := c09Requests(p, t)
+	var reuseRec *Rec // when set: the next send hands this very writer object to the router again
 	send := func(rt *rux.Router, q c09Req, hdr map[string]string, sk *retainSink) (*Rec, any, bool) {
 		req := NewReq(q.Method, q.Path)
 		for k, v := range hdr {
@@ -261,10 +262,17 @@ func c10Case(t *T) {
 		}
 		req.URL.RawQuery = hdr["X-RawQuery"]
 		rec := NewRec()
+		if reuseRec != nil {
+			// the server layer in front recycles its writer object: the very same value as for the previous request
+			*reuseRec = Rec{H: http.Header{}}
+			rec = reuseRec
+			reuseRec = nil
+		}
 		rec.Extra = map[string]any{"req": req, "want_snapshot": true, "retain_sink": sk, "router": rt}
 		pv, panicked := catch(func() { rt.ServeHTTP(rec, req) })
 		return rec, pv, panicked
 	}
+	var prevRec *Rec
 	seen := map[*rux.Context]bool{}
 	prevDirty := false
 	n := 10 + r.IntN(51)
@@ -305,7 +313,12 @@ func c10Case(t *T) {
 		t.Count("kind."+q.Kind, 1)
 		histDesc = append(histDesc, fmt.Sprintf("#%d %s %v", k, q, hdr))
 
+		if prevRec != nil && len(sink.copies) == 0 && chance(r, 1, 4) {
+			reuseRec = prevRec // (nothing of an earlier request still holds that writer)
+			t.Count("history.same_writer_object_as_previous_request", 1)
+		}
 		rec, pv, panicked := send(router, q, hdr, sink)
+		prevRec = rec
 		fresh := build()
 		frec, fpv, fpanicked := send(fresh, q, hdr, &retainSink{})
 
